@@ -41,4 +41,43 @@ func (e *Engine) AnalyzeRoot(fn *ssa.Function, opt RootOptions) {
 			e.trace("ROOT RETURN %s: %s", r.ret, r.st.String())
 		}
 	}
+	// conditional summary: error == nil  =>  len(slice parameter) >= k
+	n := fn.Signature.Results().Len()
+	if n == 0 || !isErrorType(fn.Signature.Results().At(n-1).Type()) {
+		return
+	}
+	sp := -1
+	for i, p := range fn.Params {
+		if isSliceLike(p.Type()) {
+			sp = i
+		}
+	}
+	if sp < 0 {
+		return
+	}
+	sum := &FnSummary{Fn: fn, SliceParam: sp, MinLenOnNil: -1}
+	first := true
+	for _, r := range rets {
+		last := r.ret.Results[n-1]
+		if e.isNonNil(r.st, last) {
+			continue
+		}
+		sum.NilPossible = true
+		b := r.st.Bounds(e.lenExpr(r.st, fn.Params[sp]))
+		lo := int64(0)
+		if b.HasLo {
+			lo = b.Lo
+		}
+		// try a few stronger candidates through full entailment
+		for _, c := range []int64{4, 8, 12, 16, 20, 24, 28} {
+			if c > lo && r.st.Entails(e.lenExpr(r.st, fn.Params[sp]).AddConst(-c)) {
+				lo = c
+			}
+		}
+		if first || lo < sum.MinLenOnNil {
+			sum.MinLenOnNil = lo
+		}
+		first = false
+	}
+	e.Summaries[fn] = sum
 }
